@@ -1,3 +1,4 @@
+import BalmProofs.JudgeSpec
 import Balm.Impl.Cache
 /-! C14: `Balm.Cache.history_fresh` (every cached field carries the tag of the node's current successor
 set after every history of the protocol operations), `step_fresh`, and the negative witness
